@@ -83,6 +83,45 @@ func (w *World) opQuery(n *Node, s *Step) {
 	live := st.Live()
 	A := w.biasedSet(r, st, live, s.Picks)
 	B := w.biasedSet(r, st, live, rotate(s.Picks, 3))
+	if w.opt.Property == "C14" && len(live) <= 5 && len(live) >= 2 && r.Pct(25) && s.Mode != "pmissing" {
+		// small state: every pair of non-empty target sets (AddProof, missing
+		// positions) resp. every target set with seeded restrictions (subset)
+		w.stats.Reach["c14_all_pairs_of_state"]++
+		subsets := func() [][]H {
+			var out [][]H
+			for mask := 1; mask < 1<<uint(len(live)); mask++ {
+				var sub []H
+				for i, h := range live {
+					if mask&(1<<uint(i)) != 0 {
+						sub = append(sub, h)
+					}
+				}
+				r.Shuffle(len(sub), func(i, j int) { sub[i], sub[j] = sub[j], sub[i] })
+				out = append(out, sub)
+			}
+			return out
+		}()
+		for _, a := range subsets {
+			if w.stop {
+				return
+			}
+			if s.Mode == "subset" {
+				w.checkProofSubset(n, st, a, r)
+				continue
+			}
+			for _, b := range subsets {
+				if w.stop {
+					return
+				}
+				if s.Mode == "addproof" {
+					w.checkAddProof(n, st, a, b)
+				} else {
+					w.checkMissing(n, st, a, b)
+				}
+			}
+		}
+		return
+	}
 	switch s.Mode {
 	case "addproof":
 		w.checkAddProof(n, st, A, B)
